@@ -131,11 +131,22 @@ def gen_cases(tier, seed):
         for o in perms:
             cases.append((dom, ring, list(o)))
         cases.append((dom, ring, None))
+    for _ in range(6 if tier == 'quick' else 60):
+        a, b, c, p, q = r.sample(names, 5)
+        big = r.choice([1020, 2048, 5000])
+        dom = [[a, big], [b, big], [c, 2], [p, 2], [q, 3]]
+        r.shuffle(dom)
+        cl = [[a, b, p], [a, b, c], [a, c, q]]
+        r.shuffle(cl)
+        cases.append((dom, cl, r.choice([None, None, r.sample([x for x, _ in dom], 5)])))
     nrand = 150 if tier == 'quick' else 2500
     for _ in range(nrand):
         n = r.randint(3, 8 if tier == 'quick' else 10)
         attrs = r.sample(names + ['i', 'j'], n)
         dom = [[a, r.choice([1, 2, 3, 4])] for a in attrs]
+        if r.random() < 0.25:
+            # attributes with thousands of values: separators whose tables have millions of cells (only sizes are computed here, no tables)
+            dom = [[a, r.choice([2, 3, 1020, 1020, 4096, 1])] for a in attrs]
         cl = []
         for _ in range(r.randint(0, n + 2)):
             k = r.choice([1, 2, 2, 2, 3, 3, 4])
